@@ -260,7 +260,10 @@ def _stub_crc_and_compression(vc, codec_obj):
             x = e.arg(0)
             vc.check('pre@decompress/length-is-original-length', ulen == SInt(z3.Length(x)))
             return SBytes(x)
-        raise sym.Unsupported('decompress of bytes that are not a compress() result')
+        # the callee's precondition: only what compress() produced may be handed to the decompressor (a payload the sender left uncompressed - marked by an
+        # uncompressed length of 0 - must not be); the result for anything else is unspecified
+        vc.check('pre@decompress/only-payloads-that-were-compressed', False)
+        return ctx.fresh_bytes('decompressor_garbage', register=False)
     vc.stub(SG + 'SegmentCodec.compress', compress)
     vc.stub(SG + 'SegmentCodec.decompress', decompress)
 
